@@ -1881,10 +1881,13 @@ func TestC14(t *testing.T) {
 			w.opBlock(1)
 			continue
 		case i == 5:
-			w.portfolioScenario()
+			w.portfolioScenario(false)
 			continue
 		case i == 6:
 			w.chainScenario()
+			continue
+		case i == 7:
+			w.portfolioScenario(true)
 			continue
 		}
 		for j := 0; j < nOps; j++ {
@@ -1911,6 +1914,8 @@ func govMatrix() []govCase {
 			govCase{who, "proposer", "deposit-end"}, govCase{who, "voter", "voting-end"},
 			govCase{who, "depositor", "closed-unfunded"}, govCase{who, "voter", "closed-voted"})
 	}
+	// a voting period far longer than usual (the parameter was raised before the proposal entered it)
+	cs = append(cs, govCase{"source", "voter", "voting-long"}, govCase{"target", "depositor", "voting-long"})
 	return cs
 }
 
@@ -1955,6 +1960,9 @@ func (w *world) govScenario(c govCase, src, tgt, helper *actor) {
 	}
 	voting := strings.HasPrefix(c.phase, "voting") || c.phase == "closed-voted"
 	zero := sdkmath.ZeroInt()
+	if c.phase == "voting-long" {
+		w.setPeriods(depSecs, hx.Pick(w.rng, []int64{15 * 24 * 3600, 40 * 24 * 3600, 400 * 24 * 3600}))
+	}
 	switch c.role {
 	case "proposer":
 		w.textProposal(x, zero) // proposer without any deposit of its own
@@ -1980,6 +1988,9 @@ func (w *world) govScenario(c govCase, src, tgt, helper *actor) {
 	switch c.phase {
 	case "deposit", "voting":
 		w.opBlock(hx.Pick(w.rng, []int64{1, 7, 50, 150}))
+	case "voting-long":
+		w.setPeriods(depSecs, voteSecs)
+		w.opBlock(hx.Pick(w.rng, []int64{1, 7, 500}))
 	case "deposit-end":
 		w.opBlock(depSecs) // now == deposit end time: still queued
 	case "voting-end":
@@ -1998,7 +2009,7 @@ func (w *world) govScenario(c govCase, src, tgt, helper *actor) {
 // portfolioScenario: a source whose records share completion times in every way — two unbonding delegations (different
 // validators) and two redelegations started in one block, another delegator in the same slices, second entries of the
 // same records at a later time, pending rewards, a second denomination — migrated, then everything matures
-func (w *world) portfolioScenario() {
+func (w *world) portfolioScenario(solo bool) {
 	u1, u2, e1 := w.byID[1], w.byID[2], w.byID[11]
 	del := func(a *actor, vi int, units int64) {
 		n := w.amt(units)
@@ -2027,6 +2038,28 @@ func (w *world) portfolioScenario() {
 	del(u2, 0, 100)
 	del(u2, 1, 100)
 	w.opBlock(5)
+	if solo {
+		// every entry of the source completes at a time of its own: no other record, entry or delegator shares its slice
+		steps := []func(){
+			func() { und(u1, 0, 10) }, func() { und(u1, 1, 10) }, func() { red(u1, 0, 2, 20) }, func() { und(u1, 0, 7) },
+			func() { red(u1, 1, 2, 15) }, func() { und(u1, 1, 2) }, func() { red(u1, 0, 2, 5) }, func() { und(u1, 2, 3) },
+			func() { und(u1, 0, 1) }, func() { red(u1, 1, 2, 4) },
+		}
+		for _, f := range steps {
+			f()
+			w.opBlock(int64(1 + w.rng.Intn(9)))
+		}
+		res := w.migrate(u1.id, u1.addr, e1, e1.id, "ft", w.sign(e1.eth, u1.addr, e1.addr), "ok")
+		w.out.Count("portfolio-scenario-solo=" + res)
+		und(e1, 0, 11)
+		for k := 0; k < 7; k++ {
+			w.opBlock(50)
+		}
+		und(e1, 1, 5)
+		w.opBlock(300)
+		w.opBlock(1)
+		return
+	}
 	und(u1, 0, 10) // one block: two unbonding delegations of the source, one of another delegator, two redelegations
 	und(u2, 0, 5)
 	und(u1, 1, 10)
